@@ -71,6 +71,19 @@ func canValueBeMapKey(v reflect.Value, recurseOkay bool) bool {
 			}
 		}
 		return true
+	case reflect.Array:
+		// an array is only as hashable as its elements
+		switch v.Type().Elem().Kind() {
+		case reflect.Interface, reflect.Struct, reflect.Array:
+			for i := 0; i < v.Len(); i++ {
+				if !canValueBeMapKey(v.Index(i), true) {
+					return false
+				}
+			}
+			return true
+		default:
+			return canSimpleTypeBeMapKey(v.Type().Elem())
+		}
 	default:
 		return canSimpleTypeBeMapKey(v.Type())
 	}
@@ -108,6 +121,21 @@ func canBeMapKey(in []reflect.Type) (bool, func([]reflect.Value) bool) {
 						return check([]reflect.Value{in[i].FieldByIndex(f.Index)})
 					})
 				}
+			}
+		case reflect.Array:
+			ok, check := canBeMapKey([]reflect.Type{t.Elem()})
+			if !ok {
+				return false, nil
+			}
+			if check != nil {
+				checkers = append(checkers, func(in []reflect.Value) bool {
+					for j := 0; j < in[i].Len(); j++ {
+						if !check([]reflect.Value{in[i].Index(j)}) {
+							return false
+						}
+					}
+					return true
+				})
 			}
 		case reflect.Interface:
 			// We cannot determine the map key compatibility of interface types.  They
